@@ -1756,6 +1756,11 @@ func countChainAt(f *ssa.Function, positions []int, used map[*ssa.Function]map[i
 		case *ssa.Parameter:
 			chain[v] = true
 		case *ssa.Call:
+			// a scanner's own count (n = scan(b)): a leaf of the chain, accounted for inside that scanner
+			if h := x.Call.StaticCallee(); h != nil && core.InMod(h) && h.Blocks != nil && byteParam(h) != nil && h.Signature.Results().Len() == 1 {
+				chain[v] = true
+				return
+			}
 			// a position helper: next = helper(pos), a module function (no scanner: it takes no input) from the
 			// position to the next position, accounting for what it adds
 			if h := x.Call.StaticCallee(); h != nil && core.InMod(h) && h.Blocks != nil && byteParam(h) == nil && h.Signature.Results().Len() == 1 {
